@@ -1,0 +1,55 @@
+// Copyright 2016 Russell Haering et al.
+//
+// Licensed under the Apache License, Version 2.0 (the "License");
+// you may not use this file except in compliance with the License.
+// You may obtain a copy of the License at
+//
+//     https://www.apache.org/licenses/LICENSE-2.0
+//
+// Unless required by applicable law or agreed to in writing, software
+// distributed under the License is distributed on an "AS IS" BASIS,
+// WITHOUT WARRANTIES OR CONDITIONS OF ANY KIND, either express or implied.
+// See the License for the specific language governing permissions and
+// limitations under the License.
+
+package saml2
+
+import (
+	"sort"
+
+	"github.com/beevik/etree"
+)
+
+// orderAttributesForDecoding puts the attributes of an element that is about to be handed to
+// encoding/xml into one fixed order: namespace declarations, namespace-qualified attributes by
+// namespace name and local name (uris maps a prefix to its namespace name), then the
+// unqualified ones in the order they were written.
+//
+// SAML's own attributes are unqualified, but encoding/xml matches an attribute field by local
+// name alone and lets the last match win. An attribute such as a:ID must therefore never come
+// after ID; and since a verified element has its attributes in canonical order while the
+// unverified decoders see document order, the order may not depend on either.
+func orderAttributesForDecoding(attrs []etree.Attr, uris map[string]string) {
+	rank := func(a etree.Attr) int {
+		switch a.Space {
+		case "xmlns":
+			return 0
+		case "":
+			return 2
+		}
+		return 1
+	}
+	sort.SliceStable(attrs, func(i, j int) bool {
+		a, b := attrs[i], attrs[j]
+		if rank(a) != rank(b) {
+			return rank(a) < rank(b)
+		}
+		if rank(a) != 1 {
+			return false
+		}
+		if uris[a.Space] != uris[b.Space] {
+			return uris[a.Space] < uris[b.Space]
+		}
+		return a.Key < b.Key
+	})
+}
